@@ -12,6 +12,7 @@ Driver for C03. One case = one history of requests on the process-wide context p
   names   = <m> str^m    parameter names the probe asks for
   view    = <paramCount int> <all: m (k v)^m sorted> <map: m (k v)^m sorted> <version> <pattern> <aborted> <nerrors>
             <acc str> <presence nat> <params: m (name value)^m> <retained: nat bitmask of non-clean fields after release> <stable 0|1> <shared 0|1>
+  <id> N <goroutines> <iterations> => <requests served> <answers that differ from the sequential reference>
   observation `P` = a panic in framework code, `T` = the history did not complete within the harness's bound
 -/
 namespace Rivaas.DriverC03
@@ -155,6 +156,12 @@ def step (line : String) : String :=
     if obs == ["P"] then verdict id false false "-" "framework-panic" else
     if obs == ["T"] then verdict id false false "-" "request-never-completed" else
     match inp with
+    | "N" :: _ =>
+      -- concurrent negotiation: every answer was compared with the answer a fresh sequential call gives for the
+      -- request's own headers; the model (no state shared between requests) predicts no mismatch
+      match runP (do let served ← nat; let bad ← nat; pure (served, bad)) obs with
+      | some (served, bad) => verdict id (bad == 0 && served > 0) (bad == 0 && served > 0) "-" s!"{served} 0"
+      | none => s!"{id} bad-case"
     | "H" :: rest =>
       match runP (do let rs ← list pReq; let ns ← list str; pure (rs, ns)) rest, runP (list pProbe) obs with
       | some (reqs, names), some probes =>
